@@ -5,8 +5,8 @@ Writes seeded/matrix.json and updates seeded/<name>/meta.json.
 usage: seed_matrix.py [--seeds 1,2,3] [NAMES...]"""
 import json, os, re, subprocess, sys
 ROOT = os.path.dirname(os.path.dirname(os.path.abspath(__file__)))
-RELATED = {"C01": ["C13", "C15"], "C02": ["C13"], "C03": ["C10"], "C05": ["C06"], "C06": ["C05"], "C07": ["C06"], "C10": ["C03"],
-           "C13": ["C01", "C16"], "C14": ["C01", "C13", "C12"], "C18": ["C11"], "C16": ["C12"]}
+RELATED = {"C01": ["C13", "C15"], "C02": ["C13", "C06"], "C03": ["C10", "C06"], "C05": ["C06", "C04"], "C06": ["C05"], "C07": ["C06"], "C10": ["C03", "C11"],
+           "C13": ["C01", "C16"], "C14": ["C01", "C13", "C12"], "C15": ["C12"], "C17": ["C08"], "C18": ["C11"], "C16": ["C12"], "C20": ["C19"]}
 args = sys.argv[1:]
 seeds = [1, 2, 3]
 if "--seeds" in args:
